@@ -1007,6 +1007,61 @@ def gtx_integer_cases(tier):
                     return [R.ob(name, 'gtx_integer', R.PROVED if ok else R.REFUTED, 'floor(sqrt(%d)) == %d' % (n, math.isqrt(n)) if ok else 'the kernel reduces to %d, floor(sqrt(%d)) is %d' % (t.args[0], n, math.isqrt(n)), kernel=k.source())]
                 return [R.ob(name, 'gtx_integer', R.UNDECIDED, 'not reduced to a constant: %s' % tm.show(t, 3), kernel=k.source())]
             cs.append(R.Case(name, [k], jq))
+    # gtx/bit power-of-two helpers (highestBitValue is a loop over the set bits) and findNSB (a loop over halving steps): kernels with constant arguments must fold to the
+    # documented value: highest set bit value; the power of two above / below / nearest (the value itself when it is one; ties of 'nearest' go to the lower one, as
+    # (next - x) < (x - prev) is strict); the position of the n-th set bit or -1
+    def _hb(n):
+        return 0 if n == 0 else 1 << (n.bit_length() - 1)
+
+    def _pow2(n):
+        return n != 0 and n & (n - 1) == 0
+
+    def _nearest(n):
+        if _pow2(n):
+            return n
+        pv = _hb(n)
+        nx = pv << 1
+        return nx if (nx - n) < (n - pv) else pv
+
+    def _nsb(x, n_):
+        pos = [i for i in range(64) if (x >> i) & 1]
+        return pos[n_ - 1] if 1 <= n_ <= len(pos) else -1
+    bit_args = [1, 2, 3, 4, 5, 6, 7, 8, 9, 12, 15, 16, 17, 24, 255, 256, 257, 1000, 65535, 65536, 65537, 3 << 20, (1 << 30) - 1, 1 << 30, (1 << 30) + 1]
+    gfuncs = [('highestBitValue', _hb), ('powerOfTwoAbove', lambda n: n if _pow2(n) else _hb(n) << 1), ('powerOfTwoBelow', lambda n: n if _pow2(n) else _hb(n)), ('powerOfTwoNearest', _nearest)]
+    CFG_BIT = Cfg('gtxbit', headers=CFG.headers + ('glm/gtx/bit.hpp',) if 'glm/gtx/bit.hpp' not in CFG.headers else CFG.headers, defines=CFG.defines)
+    CFG_NSB = Cfg('gtxbit_peel', headers=CFG_BIT.headers, defines=CFG_BIT.defines, peel=8)       # the halving loop of findNSB has at most log2(width) iterations: peeled, it folds
+    for fn_, ref in gfuncs:
+        for n in bit_args:
+            k = K('gbit_%s_%d' % (fn_, n), [Par('o', ut, False)], '*o = %s(%s(%du));' % (fn_, ut.cpp, n), CFG_BIT)
+            name = '%s<uint>(%d)' % (fn_, n)
+
+            def jb(ctx, k=k, n=n, name=name, ref=ref, fn_=fn_):
+                err = ctx.compile_error(k)
+                if err:
+                    return [R.ob(name, 'existence', R.REFUTED, 'cannot be instantiated: ' + err, kernel=k.source())]
+                t = I.out_lane(ctx.fn(k), 'o', 0, 4)
+                if t.op == 'const':
+                    want = ref(n) & 0xffffffff
+                    ok = t.args[0] == want
+                    return [R.ob(name, 'gtx_bit', R.PROVED if ok else R.REFUTED, '%s(%d) == %d' % (fn_, n, want) if ok else 'the kernel reduces to %d, %s(%d) is %d' % (t.args[0], fn_, n, want), kernel=k.source())]
+                return [R.ob(name, 'gtx_bit', R.UNDECIDED, 'not reduced to a constant: %s' % tm.show(t, 3), kernel=k.source())]
+            cs.append(R.Case(name, [k], jb))
+    nsb_args = [(0x1, 1), (0x1, 2), (0x10, 1), (0xF0, 1), (0xF0, 4), (0xF0, 5), (0x80000001, 1), (0x80000001, 2), (0x80000001, 3), (0xFFFFFFFF, 1), (0xFFFFFFFF, 17), (0xFFFFFFFF, 32), (0xA5A5A5A5, 7), (0xA5A5A5A5, 16), (0x00010000, 1), (0, 1)]
+    for xv, nn in nsb_args:
+        k = K('gnsb_%x_%d' % (xv, nn), [Par('o', it_, False)], '*o = findNSB(%s(%du), %d);' % (ut.cpp, xv, nn), CFG_NSB)
+        name = 'findNSB<uint>(%#x, %d)' % (xv, nn)
+
+        def jn(ctx, k=k, xv=xv, nn=nn, name=name):
+            err = ctx.compile_error(k)
+            if err:
+                return [R.ob(name, 'existence', R.REFUTED, 'cannot be instantiated: ' + err, kernel=k.source())]
+            t = I.out_lane(ctx.fn(k), 'o', 0, 4)
+            if t.op == 'const':
+                got = tm.sval(t)
+                want = _nsb(xv, nn)
+                return [R.ob(name, 'gtx_bit', R.PROVED if got == want else R.REFUTED, 'position of set bit number %d of %#x == %d' % (nn, xv, want) if got == want else 'the kernel reduces to %d, the position of set bit number %d of %#x is %d' % (got, nn, xv, want), kernel=k.source())]
+            return [R.ob(name, 'gtx_bit', R.UNDECIDED, 'not reduced to a constant: %s' % tm.show(t, 3), kernel=k.source())]
+        cs.append(R.Case(name, [k], jn))
     # factorial on 0..12
     for n in range(0, 13):
         k = K('gfact_%d' % n, [Par('o', it_, False)], '*o = factorial(%d);' % n, CFG)
